@@ -1,7 +1,7 @@
 /-
 Spike: Bit Machine (bit-cell level) vs. denotational semantics for the core combinators.
 -/
-namespace BM
+namespace BM2
 
 inductive Ty | one | sum (a b : Ty) | prod (a b : Ty)
 deriving DecidableEq, Repr
@@ -72,6 +72,8 @@ structure M where
   next : Nat
   read : List Frame
   write : List Frame
+  cap : Nat    -- number of cells of the data buffer (`data.len() * 8`)
+  fcap : Nat   -- capacity of the frame stacks (`extra_frames + IO_EXTRA_FRAMES`)
 
 inductive Err | fail | crash
 deriving DecidableEq, Repr
@@ -81,7 +83,10 @@ def upd (f : Nat → Bool) (i : Nat) (b : Bool) : Nat → Bool := fun j => if j 
 def writeBit (b : Bool) (m : M) : Except Err M :=
   match m.write with
   | [] => .error .crash
-  | w :: ws => .ok { m with cells := upd m.cells w.cursor b, write := { w with cursor := w.cursor + 1 } :: ws }
+  | w :: ws =>
+    if w.cursor < m.cap then
+      .ok { m with cells := upd m.cells w.cursor b, write := { w with cursor := w.cursor + 1 } :: ws }
+    else .error .crash
 
 def skip (n : Nat) (m : M) : Except Err M :=
   if n = 0 then .ok m else
@@ -114,8 +119,11 @@ def copy (n : Nat) (m : M) : Except Err M :=
                  write := { w with cursor := w.cursor + n } :: ws }
   | _, _ => .error .crash
 
+/-- `new_write_frame`, with the two debug assertions turned into crashes -/
 def newWrite (n : Nat) (m : M) : Except Err M :=
-  .ok { m with write := ⟨m.next, m.next, n⟩ :: m.write, next := m.next + n }
+  if m.next + n ≤ m.cap ∧ m.write.length + m.read.length < m.fcap then
+    .ok { m with write := ⟨m.next, m.next, n⟩ :: m.write, next := m.next + n }
+  else .error .crash
 
 def moveWriteToRead (m : M) : Except Err M :=
   match m.write with
@@ -171,6 +179,32 @@ def run : {a b : Ty} → Term a b → M → Except Err M
       run t m
   | _, _, .fail, _ => .error .fail
 
+
+/-- `NodeBounds::extra_cells` -/
+def extraCells : {a b : Ty} → Term a b → Nat
+  | _, _, .iden => 0
+  | _, _, .unit => 0
+  | _, _, .injl t => extraCells t
+  | _, _, .injr t => extraCells t
+  | _, _, .take t => extraCells t
+  | _, _, .drop t => extraCells t
+  | _, _, @Term.comp _ b _ s t => b.bw + max (extraCells s) (extraCells t)
+  | _, _, .case s t => max (extraCells s) (extraCells t)
+  | _, _, .pair s t => max (extraCells s) (extraCells t)
+  | _, _, .fail => 0
+
+/-- `NodeBounds::extra_frames` -/
+def extraFrames : {a b : Ty} → Term a b → Nat
+  | _, _, .iden => 0
+  | _, _, .unit => 0
+  | _, _, .injl t => extraFrames t
+  | _, _, .injr t => extraFrames t
+  | _, _, .take t => extraFrames t
+  | _, _, .drop t => extraFrames t
+  | _, _, .comp s t => 1 + max (extraFrames s) (extraFrames t)
+  | _, _, .case s t => max (extraFrames s) (extraFrames t)
+  | _, _, .pair s t => max (extraFrames s) (extraFrames t)
+  | _, _, .fail => 0
 
 /-! ### specification -/
 
@@ -275,4 +309,4 @@ theorem copyCells_spec (cells : Nat → Bool) (src dst n : Nat)
       have := hd (i+1) (j+1) (by omega) (by omega)
       omega
 
-end BM
+end BM2
